@@ -447,13 +447,41 @@ func (w *World) measIdent() string {
 }
 
 func (w *World) MeasFile() (name, content string) {
+	name, content = w.measFileOf(w.Meas, true)
+	if w.Meas.Again > 0 {
+		// a second sampling of the same plot further down the file
+		m2 := w.Meas
+		m2.Day += Day(w.Meas.Again)
+		if lo, hi := w.DateWindow(); m2.Day > hi-2 || m2.Day < lo {
+			return name, content
+		}
+		for i := range m2.Nmin {
+			m2.Nmin[i] = (m2.Nmin[i] + 23) % 90
+		}
+		for i := range m2.Water {
+			m2.Water[i] = round(m2.Water[i]*0.8, 3)
+		}
+		_, second := w.measFileOf(m2, false)
+		e := w.eol()
+		if strings.HasSuffix(name, ".csv") {
+			content += second
+		} else {
+			content = strings.TrimSuffix(content, "end"+e) + second + "end" + e
+		}
+	}
+	return name, content
+}
+
+// measFileOf renders the measurement file with one row (header = false: the row only).
+func (w *World) measFileOf(m Measurement, header bool) (name, content string) {
 	e := w.eol()
 	df := w.Cfg.DateFormat
-	m := w.Meas
 	id := w.measIdent()
 	var b strings.Builder
 	if w.Cfg.MeasFmt == "csv" {
-		b.WriteString("Id,Date,Nmin0-3,Nmin3-6,Nmin6-9,Nmin9-12,Nmin12-15,Nmin15-20,M,Water0-3,Water3-6,Water6-9,Water9-12,Water12-15,Water15-20" + e)
+		if header {
+			b.WriteString("Id,Date,Nmin0-3,Nmin3-6,Nmin6-9,Nmin9-12,Nmin12-15,Nmin15-20,M,Water0-3,Water3-6,Water6-9,Water9-12,Water12-15,Water15-20" + e)
+		}
 		if m.Short {
 			fmt.Fprintf(&b, "%s,%s,%d,%d,%d,,,,%d,%.3f,%.3f,%.3f,,,%s", id, FmtDate(m.Day, df), m.Nmin[0], m.Nmin[1], m.Nmin[2], m.Mode, m.Water[0], m.Water[1], m.Water[2], e)
 		} else {
@@ -462,14 +490,22 @@ func (w *World) MeasFile() (name, content string) {
 		return "endit_" + w.Loc + ".csv", b.String()
 	}
 	if m.Short {
-		b.WriteString("Plot_ID   Date     Nm03 Nm36 Nm69 M W0_3  W3_6  W6_9" + e)
+		if header {
+			b.WriteString("Plot_ID   Date     Nm03 Nm36 Nm69 M W0_3  W3_6  W6_9" + e)
+		}
 		fmt.Fprintf(&b, "%s %s %04d %04d %04d %d %.3f %.3f %.3f%s", pad(id, 9), FmtDate(m.Day, df), m.Nmin[0], m.Nmin[1], m.Nmin[2], m.Mode, m.Water[0], m.Water[1], m.Water[2], e)
-		b.WriteString("end" + e)
+		if header {
+			b.WriteString("end" + e)
+		}
 		return "endit_" + w.Loc + ".txt", b.String()
 	}
-	b.WriteString("Plot_ID   Date     Nm03 Nm36 Nm69 M W0_3  W3_6  W6_9  NM9-12 NM12-15 NM15-20  W9-12 W12-15 W15-20" + e)
+	if header {
+		b.WriteString("Plot_ID   Date     Nm03 Nm36 Nm69 M W0_3  W3_6  W6_9  NM9-12 NM12-15 NM15-20  W9-12 W12-15 W15-20" + e)
+	}
 	fmt.Fprintf(&b, "%s %s %04d %04d %04d %d %.3f %.3f %.3f %04d   %04d    %04d     %.3f %.3f  %.3f%s", pad(id, 9), FmtDate(m.Day, df), m.Nmin[0], m.Nmin[1], m.Nmin[2], m.Mode, m.Water[0], m.Water[1], m.Water[2], m.Nmin[3], m.Nmin[4], m.Nmin[5], m.Water[3], m.Water[4], m.Water[5], e)
-	b.WriteString("end" + e)
+	if header {
+		b.WriteString("end" + e)
+	}
 	return "endit_" + w.Loc + ".txt", b.String()
 }
 
